@@ -338,6 +338,24 @@ Definition step (c : cfg) (w : world) (e : event) : result world :=
   | HostMerged ids => Ok (host_merged ids w)
   end.
 
+(* the user pull request an evaluation event ends up evaluating (observable of the redirection) *)
+Definition evaluated_pr (c : cfg) (w : world) (e : event) : option Z :=
+  let res id := match resolve (S (List.length (prs w))) (prs w) id with Ok p => Some (pid p) | Err _ => None end in
+  match e with
+  | EvalPR id _ => res id
+  | EvalCommit at_commit _ =>
+      match at_commit with
+      | [] => None
+      | _ => if use_queue c && existsb is_queue_name at_commit then None
+             else match min_by_id (filter (fun q => host_listed q && mem_name (psrc q) (map parent_name at_commit))
+                                          (prs w)) with
+                  | Some p => res (pid p)
+                  | None => None
+                  end
+      end
+  | _ => None
+  end.
+
 Fixpoint run (c : cfg) (w : world) (es : list event) : result world :=
   match es with
   | [] => Ok w
